@@ -4,6 +4,7 @@
 #include "fiber_rwlock.h"
 
 #include "fiber_manager.h"
+#include "fiber_verif.h"
 
 #ifdef __GNUC__
 #define STATIC_ASSERT_HELPER(expr, msg) \
@@ -155,6 +156,7 @@ int fiber_rwlock_rdunlock(fiber_rwlock_t* rwlock) {
         current_state.state.waiting_writers -= 1;
         if (__sync_bool_compare_and_swap(&rwlock->state.blob, snapshot,
                                          current_state.blob)) {
+          FIBER_VERIF_POINT(FV_RW_HANDOFF, rwlock, 0);
           fiber_manager_wake_from_mpsc_queue(fiber_manager_get(),
                                              &rwlock->write_waiters, 1);
           break;
@@ -167,6 +169,7 @@ int fiber_rwlock_rdunlock(fiber_rwlock_t* rwlock) {
         current_state.state.waiting_readers = 0;
         if (__sync_bool_compare_and_swap(&rwlock->state.blob, snapshot,
                                          current_state.blob)) {
+          FIBER_VERIF_POINT(FV_RW_HANDOFF, rwlock, 0);
           fiber_manager_wake_from_mpsc_queue(fiber_manager_get(),
                                              &rwlock->read_waiters,
                                              current_state.state.reader_count);
@@ -201,6 +204,7 @@ int fiber_rwlock_wrunlock(fiber_rwlock_t* rwlock) {
       current_state.state.waiting_writers -= 1;
       if (__sync_bool_compare_and_swap(&rwlock->state.blob, snapshot,
                                        current_state.blob)) {
+        FIBER_VERIF_POINT(FV_RW_HANDOFF, rwlock, 0);
         fiber_manager_wake_from_mpsc_queue(fiber_manager_get(),
                                            &rwlock->write_waiters, 1);
         break;
@@ -213,6 +217,7 @@ int fiber_rwlock_wrunlock(fiber_rwlock_t* rwlock) {
       current_state.state.waiting_readers = 0;
       if (__sync_bool_compare_and_swap(&rwlock->state.blob, snapshot,
                                        current_state.blob)) {
+        FIBER_VERIF_POINT(FV_RW_HANDOFF, rwlock, 0);
         fiber_manager_wake_from_mpsc_queue(fiber_manager_get(),
                                            &rwlock->read_waiters,
                                            current_state.state.reader_count);
